@@ -136,6 +136,21 @@ def run(chk):
                           dict(behaviour=b, seed=res["seed"], params=res["params"], opts=res["opts"], why=res["why"]), kf_key=kf)
         elif res["events"]:
             traces.append(dict(events=res["events"], pkts=res["pkts"], b=b, seed=res["seed"], params=res["params"], retry=b["retry"]))
+    # the repository's QUIC sample captures (quiche / browser traffic incl. a key update and a 1500-datagram download), every capture with
+    # every key log of the directory: export vs. an independent passive QUIC decryptor (wire/quicdec.py)
+    import glob, os
+    from checks import samples
+    sj = [(f, klf) for f, _kl in samples.quic_samples() for klf in sorted(glob.glob(os.path.dirname(f) + "/*.log"))]
+    nd = 0
+    for sres in pool_map(samples.run_quic_sample, sj, chunksize=1):
+        chk.evaluations += 1
+        nd += sres["ndg"]
+        chk.distinct.add(("sample", sres["file"], sres["keylog"]))
+        if sres["crashed"]:
+            chk.violation(f"sample {sres['file']} with {sres['keylog']}: run aborted: {sres['exc'].strip().splitlines()[-1]}", dict(sample=sres["file"], keylog=sres["keylog"]))
+        for b_ in sres["bad"]:
+            chk.violation(f"sample {sres['file']} with {sres['keylog']}: {b_}", dict(sample=sres["file"], keylog=sres["keylog"], why=b_))
+    chk.extra["sample_stream_datagrams_compared_with_independent_decryption"] = nd
     from harness.quictrace import validate_quic
     validate_quic(chk, traces)
     chk.rule = ("behaviours = TLC -simulate runs of Quic.tla (4 suites x offered order x ClientHello split/order/packets x Retry x 0-RTT x "
